@@ -185,6 +185,9 @@ pub struct ReqPlan {
     /// the caller sets `te: trailers` (must reach the handler over HTTP/1 and over HTTP/2)
     #[serde(default)]
     pub te_trailers: bool,
+    /// the request body ends with a trailers frame (judged where the connection is HTTP/2)
+    #[serde(default)]
+    pub req_trailers: bool,
     pub query: Option<String>,
     pub extra: Option<String>,
     pub body_len: usize,
@@ -303,6 +306,9 @@ pub fn redirect_location(to_origin: &str, p: &ReqPlan) -> String {
 pub fn build_request(origin: &str, p: &ReqPlan, progress: Arc<Mutex<u64>>) -> http::Request<ChunkBody> {
     let mut body = ChunkBody::new(req_body(p.id, p.body_len), p.body_chunk, p.body_delay_ms);
     body.progress = Some(progress);
+    if p.req_trailers {
+        body.trailers = Some(infra::trailers_for(p.id, false));
+    }
     let mut b = http::Request::builder()
         .method(p.method.as_str())
         .uri(request_uri(origin, p))
@@ -466,6 +472,8 @@ pub async fn run_request_to(net: Network, svc: ClientSvc, origin: String, redire
     let is_head = followed_method.as_deref().unwrap_or(p.method.as_str()) == "HEAD";
     let expect_len = if is_head { 0 } else { p.handler.resp_len };
     let mut got = 0usize;
+    let resp_version = resp.version();
+    let mut got_trailers: Option<String> = None;
     let body = resp.body_mut();
     loop {
         let frame = tokio::select! {
@@ -488,6 +496,9 @@ pub async fn run_request_to(net: Network, svc: ClientSvc, origin: String, redire
                         got += 1;
                     }
                 }
+                if let Some(t) = f.trailers_ref() {
+                    got_trailers = Some(infra::trailers_digest(t));
+                }
                 if p.read == ReadMode::Slow {
                     tokio::time::sleep(Duration::from_millis(3)).await;
                 }
@@ -501,6 +512,24 @@ pub async fn run_request_to(net: Network, svc: ClientSvc, origin: String, redire
     if got != expect_len {
         set(ROutcome::Wrong(format!("response body has {} bytes, the server sent {} (request {})", got, expect_len, p.id)));
         return;
+    }
+    // trailers are part of the body: HTTP/2 always carries them (HTTP/1 only under conditions
+    // hyper decides, so only their *content* is judged there)
+    let want = infra::trailers_digest(&infra::trailers_for(p.id, true));
+    match (&got_trailers, p.handler.resp_trailers && !is_head) {
+        (Some(g), true) if *g != want => {
+            set(ROutcome::Wrong(format!("response trailers {:?} differ from what the server sent for request {} ({:?})", g, p.id, want)));
+            return;
+        }
+        (None, true) if resp_version == http::Version::HTTP_2 => {
+            set(ROutcome::Wrong(format!("response body of request {} ended without the trailers the server sent (HTTP/2)", p.id)));
+            return;
+        }
+        (Some(g), false) => {
+            set(ROutcome::Wrong(format!("response body of request {} ended with trailers {:?}, the server sent none", p.id, g)));
+            return;
+        }
+        _ => {}
     }
     set(ROutcome::Ok);
 }
@@ -730,6 +759,7 @@ pub fn gen_request(r: &mut Rng, id: u32, origins: &[OriginCfg], client_alpn_h2: 
         user_agent: if r.chance(1, 5) { Some(format!("caller/{}", id)) } else { None },
         host_header: if Rng::keyed(id as u64 * 7919 + r.below(1 << 30), "e2e/host").chance(1, 6) { Some(format!("tenant-{}.example", id)) } else { None },
         te_trailers: r.chance(1, 5),
+        req_trailers: Rng::keyed(id as u64 * 104729 + r.below(1 << 30), "e2e/trailers").chance(1, 4),
         query: if q.is_empty() { None } else { Some(q.to_string()) },
         extra: if r.bool() { Some(format!("v{}", r.below(1000))) } else { None },
         body_len,
@@ -747,6 +777,7 @@ pub fn gen_request(r: &mut Rng, id: u32, origins: &[OriginCfg], client_alpn_h2: 
             fail: false,
             upgrade: false,
             redirect: None,
+            resp_trailers: Rng::keyed(id as u64 * 104723 + r.below(1 << 30), "e2e/resp-trailers").chance(1, 4),
         },
     }
 }
@@ -1138,6 +1169,16 @@ impl Scenario for E2eSim {
                     viol("request_corrupted", json!({"kind": "host_header"}), format!("request {} sent Host {:?} but the handler saw {:?} (connection {:?})", p.id, want, s.host, s.version));
                 }
             }
+            // trailers of the request body (HTTP/2 always carries them; a followed redirect replays the body without them)
+            if s.body_done_ms.is_some() && !p.upgrade && p.redirect.is_none() {
+                let want = infra::trailers_digest(&infra::trailers_for(p.id, false));
+                match (&s.req_trailers, p.req_trailers) {
+                    (Some(g), true) if *g != want => viol("request_corrupted", json!({"kind": "trailers"}), format!("request {} sent trailers {:?} but the handler saw {:?}", p.id, want, g)),
+                    (None, true) if s.version == http::Version::HTTP_2 => viol("request_corrupted", json!({"kind": "trailers"}), format!("request {} sent trailers after its body but the handler's body ended without them (HTTP/2 connection)", p.id)),
+                    (Some(g), false) => viol("request_corrupted", json!({"kind": "trailers"}), format!("request {} sent no trailers but the handler saw {:?}", p.id, g)),
+                    _ => {}
+                }
+            }
             if p.te_trailers && !p.upgrade && s.te.as_deref() != Some("trailers") {
                 viol("request_corrupted", json!({"kind": "te_header"}), format!("request {} ({:?}) sent `te: trailers` but the handler saw TE {:?} (connection {:?})", p.id, p.ver, s.te, s.version));
             }
@@ -1447,6 +1488,12 @@ pub fn shrink_e2e(case: &E2eCase) -> Vec<E2eCase> {
         if r.te_trailers {
             let mut c = case.clone();
             c.requests[i].te_trailers = false;
+            v.push(c);
+        }
+        if r.req_trailers || r.handler.resp_trailers {
+            let mut c = case.clone();
+            c.requests[i].req_trailers = false;
+            c.requests[i].handler.resp_trailers = false;
             v.push(c);
         }
         if r.query.is_some() || !r.path_tail.is_empty() || r.extra.is_some() {
